@@ -124,7 +124,7 @@ def run_body(task):
                 main=int(threading.current_thread() is threading.main_thread()),
                 mark=PARENT_MARK, impid=IMPORT_PID,
                 mp_main=int('__mp_main__' in sys.modules),
-                ctx=sorted(ctx.keys()) if isinstance(ctx, dict) else None,
+                ctx=ctx_digest(ctx),
                 sigint_ign=int(_sigint_ignored()))
     if RIG is not None:
         RIG.on_run_begin(task)
@@ -158,26 +158,37 @@ def _sigint_ignored():
         return False
 
 
+def ctx_digest(ctx) -> str:
+    import hashlib
+    import json
+    return hashlib.sha1(json.dumps(ctx, sort_keys=True, default=str).encode()).hexdigest()[:12]
+
+
+def _filter2(self, context):
+    """per-parameter subset"""
+    return {k: v for k, v in context.items() if k in ('epoch', f'k{self.tid}')}
+
+
+def _filter3(self, context):
+    """a projection that is not idempotent: applying it twice gives something else"""
+    return {'epoch': context.get('epoch'), 'sel': sorted(context), 'n': len(context)}
+
+
 def ctx_filter_for(y):
-    """Type 1: identity (labtech's default).  Type 2: per-parameter subset.  Type 3: drops one key."""
-    if y == 2:
-        def filter_context(self, context):
-            return {k: v for k, v in context.items() if k in ('epoch', f'k{self.tid}')}
-        return filter_context
-    if y == 3:
-        def filter_context(self, context):
-            return {k: v for k, v in context.items() if k != 'big'}
-        return filter_context
-    return None
+    """Type 1: identity (labtech's default).  Type 2: per-parameter subset.  Type 3: non-idempotent projection."""
+    return {2: _filter2, 3: _filter3}.get(y)
 
 
-def expected_ctx_keys(y, tid, lab_keys):
-    """What ctx_filter_for(y) yields on a context with the given keys (used only to fill the header)."""
-    if y == 2:
-        return sorted(k for k in lab_keys if k in ('epoch', f'k{tid}'))
-    if y == 3:
-        return sorted(k for k in lab_keys if k != 'big')
-    return sorted(lab_keys)
+class _T:
+    def __init__(self, tid):
+        self.tid = tid
+
+
+def expected_ctx_keys(y, tid, lab_ctx):
+    """Digest of what the declared filter of type y yields, applied once to the Lab's context."""
+    f = ctx_filter_for(y)
+    ctx = dict(lab_ctx)
+    return ctx_digest(f(_T(tid), ctx) if f else ctx)
 
 
 TYPES: dict = {}
